@@ -9,11 +9,35 @@ import ElaVerif.Gen.C23
 
     mpsnap <tx hex> …            → live <n> snap <n>
     ckpt <type> <hex> <digest>   → ok <consumed> <sha256d(re-encoding of the decoded value)> | err | unmodelled
+    ckpt <type> <hex> -          → ok <consumed> <sha256d(the consumed bytes)> | err      (damaged file)
 -/
 namespace ElaVerif.CheckpointDriver
-open ElaVerif.Bytes ElaVerif.Wire ElaVerif.WireTokens ElaVerif.WireDriver
+open ElaVerif.Bytes ElaVerif.Wire ElaVerif.WireTokens ElaVerif.WireDriver ElaVerif.WireSchemas
+
+/-! wallet coin checkpoint (wallet/coincheckpoint.go, coin.go, ownedcoins.go).  A `Coin` is written as
+    its transaction-version byte, the output *as that version writes it* (type byte and output payload
+    only from `TxVersion09` on) and the height — a layout selected by a byte read from the file, which a
+    token stream cannot express; the coin schema is therefore written by hand and tied to the
+    regenerated `wallet.Coin` stream by `C23_gen_wallet_coin`.  The owned-coins map is derived from its
+    reader's stream like every other checkpoint part. -/
+
+def coinCases : List (Nat × Ty) :=
+  [(0, output false), (1, output false), (2, output false), (3, output false), (4, output false),
+   (5, output false), (6, output false), (7, output false), (8, output false)]
+
+def coinTy : Ty := .struct [.tagged 1 coinCases (output true), .fixed 4]
+
+def ownedCoinsTy : Ty :=
+  match findStream Gen.C23.walletParts "wallet.OwnedCoins" with
+  | some s => ofToks s.de
+  | none => .fail
+
+/-- height, `map[OutPoint]*Coin` (32-bit count), owned coins -/
+def walletTy : Ty :=
+  .struct [.fixed 4, .list 4 none 0 128 (.struct [.fixed 32, .fixed 2, coinTy]), ownedCoinsTy]
 
 def schemaOf (name : String) : Option Ty :=
+  if name = "wallet.CoinsCheckPoint" then some walletTy else
   match findStream Gen.C23.streams name with
   | some s =>
     -- a dynamic dispatch inside a list element (the `ArbiterMember` lists of the DPoS CheckPoint) is
@@ -50,13 +74,16 @@ def stepMpSnap (txs : List String) : String :=
 
 def step : List String → String
   | "mpsnap" :: txs => stepMpSnap txs
-  | "ckpt" :: name :: hex :: _ =>
+  | "ckpt" :: name :: hex :: more =>
     match schemaOf name, hexBytes? hex with
     | some ty, some bs =>
       (match (decodeA ty bs).res with
        | some (v, rest) =>
          let n := bs.length - rest.length
-         s!"ok {n} {toHex (Sha256.sha256d (encode ty v))}"
+         -- a file the writer produced: the re-encoding of what was read must be the bytes read;
+         -- a damaged file (`-`): agreement on acceptance and on the number of bytes read
+         let out := if more = ["-"] then bs.take n else encode ty v
+         s!"ok {n} {toHex (Sha256.sha256d out)}"
        | none => "err")
     | none, some _ => "unmodelled"
     | _, none => "bad-op"
